@@ -206,6 +206,21 @@ CLAIMED = {
              "production is unreachable from text.",
         design="§4 C10",
     ),
+    "C07": dict(
+        text="Machine-checked (Lean 4) composition of the C04, C05, C06 and C16 theorems: for every well-formed, wire-safe HTTP configuration, every "
+             "history of check-ins, tasks and (multi-)callbacks and every kind of sufficient key material, the raw HTTP bytes (C16 rendering) of the "
+             "client's and a reference team server's messages decode with one decoder object to exactly the packets sent, in order (session_decodes, "
+             "induction over events with a decoder-state invariant; RSA-only decoders from the message after the first check-in - "
+             "keys_read_before_metadata pins the evaluation order). Routing is characterised exactly by verb and URI prefix (routing_decision, "
+             "routing_ignores_rest), and unrelated requests give ValueError with no state change and no primitive call (unrelated_rejected).",
+        note="Crypto primitives are parameters with explicit laws; the harness supplies their results computed independently. Not proved: httpx/h11's "
+             "actual serialisation (the differences to the C16 rendering are checked on every captured message), uri-append with the client's "
+             "non-empty initial URI (known finding C07-uri-append-initial-uri, same root cause as C04's), configurations outside WireCfg "
+             "(non-token verbs, unclean paths, empty static parameter values). The real HttpBeaconClient plus a capturing peer and "
+             "C2Http.iter_recover_http under the three key variants are compared with the model on generated sessions (sample beacons + synthetic "
+             "configurations with own RSA keys).",
+        design="§4 C07",
+    ),
 }
 
 REASON_PENDING = "not claimed yet: model/theorems/correspondence for this property are not built in this revision (see DESIGN.md §7 build order)"
